@@ -236,12 +236,23 @@ def main():
     sq = squeeze(sess)
     for need, why in [
         ("fncan_reset_errors(&self)->bool{self.can_reset_errors.load(Ordering::Acquire)}", "ParseSess::can_reset_errors no longer just loads the shared flag"),
-        ("fnhas_errors(&self)->bool{self.raw_psess.dcx().has_errors().is_some()}", "ParseSess::has_errors is no longer dcx().has_errors().is_some()"),
         ("fnreset_errors(&self){self.raw_psess.dcx().reset_err_count();}", "ParseSess::reset_errors is no longer dcx().reset_err_count()"),
         ("fnemit_diagnostics(&self,diagnostics:Vec<Diag<'_>>){fordiagnosticindiagnostics{diagnostic.emit();}}", "ParseSess::emit_diagnostics no longer emits each diagnostic"),
     ]:
         if need not in sq:
             refuse(NAME, "session.rs: " + why)
+
+    # has_errors: with or without flushing the stashed diagnostics first
+    hb = squeeze(fn_body_in(sess, r"pub\(super\)\s+fn\s+has_errors\s*\(", "session.rs ParseSess::has_errors"))
+    if hb == "self.raw_psess.dcx().has_errors().is_some()":
+        flush = "false"
+    elif hb == "self.raw_psess.dcx().emit_stashed_diagnostics();self.raw_psess.dcx().has_errors().is_some()":
+        flush = "true"
+    else:
+        refuse(NAME, "session.rs ParseSess::has_errors is neither `dcx().has_errors().is_some()` nor `dcx().emit_stashed_diagnostics(); dcx().has_errors().is_some()`: " + hb[:200])
+    n_he = len(re.findall(r"\.has_errors\(\)", cut_tests(strip_rust_comments(read(a.repo, "src/parse/parser.rs", NAME)))))
+    if n_he != 2:
+        refuse(NAME, f"parser.rs: {n_he} calls of has_errors(), expected the two guards (`Ok(Some(m)) if !psess.has_errors()` and `if !psess.has_errors()`)")
 
     # ------------------------------------------------------------------ parser.rs
     par = cut_tests(strip_rust_comments(read(a.repo, "src/parse/parser.rs", NAME)))
@@ -317,6 +328,11 @@ def ignoredFileBranch : List Stmt := {lst(ignored_branch)}
 def initHasNonIgn : Bool := {init_has}
 def initCanReset : Bool := {init_can}
 
+/-- `ParseSess::has_errors`: does it call `emit_stashed_diagnostics()` before it asks `DiagCtxt::has_errors()`?
+(the rustc parser *stashes* some errors — a `static`/`const` item without a type, an expression in pattern
+position, … — which count as errors but reach the emitter only when they are emitted) -/
+def hasErrorsEmitsStashed : Bool := {flush}
+
 /-- statements found in the arms of src/parse/parser.rs -/
 inductive PStmt where
   | emitErr          -- `e.emit();`
@@ -365,7 +381,7 @@ end RF.Gen.ParseErrs
 """
     changed = write_if_changed(os.path.join(a.out, "ParseErrs.lean"), L)
     print(f"c05_errors: ok ({'rewritten' if changed else 'unchanged'}); handleNonIgnorable = {handle}; ignoredFileBranch = {ignored_branch}; "
-          f"fileArms = {len(file_arms)}; crateArms = {len(crate_arms)}")
+          f"fileArms = {len(file_arms)}; crateArms = {len(crate_arms)}; hasErrorsEmitsStashed = {flush}")
 
 
 if __name__ == "__main__":
